@@ -158,7 +158,13 @@ func cmdCheck(args []string) int {
 			return undecided(strings.ReplaceAll(r.Err.Error(), "\n", " "))
 		}
 		results = append(results, r)
-		all = append(all, r.Obls...)
+		for _, o := range r.Obls {
+			// clauses restricted to other properties do not belong to this check
+			if len(o.Only) > 0 && !hasProp(o.Only, prop) {
+				continue
+			}
+			all = append(all, o)
+		}
 		for _, t := range r.Trusted {
 			trusted[t] = true
 		}
